@@ -441,6 +441,13 @@ pub fn run_c08(cfg: &Cfg, rep: &mut Report) {
             runs.push((crate::util::rotating_channel(cfg, i), vec![p[0], p[1], p[0] ^ 0x40]));
         }
     }
+    // auto-dictionary: values from integer literals that are new in the tree under test
+    let extra = crate::util::extra_values7();
+    if !extra.is_empty() && !cfg.as_c18 && !full {
+        for c in crate::util::extra_channels() {
+            runs.push((c, extra.clone()));
+        }
+    }
     for (channel, vals) in runs {
         let alpha = c08_alphabet_v(full, channel, &vals);
         let (st, _) = explore(cfg, Cc14Mon::new(), &alpha, if full { 200_000 } else { 20_000 }, rep, false);
